@@ -504,6 +504,8 @@ class SInt(Sym):
     def __abs__(s): return SInt(z3.If(s.z < 0, -s.z, s.z), s.is_float)
 
     def _posdiv(self, o):
+        if not isinstance(o, (int, float, Sym)):
+            raise TypeError("unsupported operand type(s) for %% or //: 'int' and '%s'" % type(o).__name__)
         if isinstance(o, bool) or not isinstance(o, int) or o <= 0:
             if isinstance(o, float) and o > 0 and o.is_integer():
                 return int(o)
